@@ -362,10 +362,23 @@ def h_buffered(ctx):
         ch._RTCDataChannel__bufferedAmount = cur
         ch.bufferedAmountLowThreshold = thr
         fired = []
-        ch.on("bufferedamountlow", lambda: fired.append(1))
+        seen = []
+        more = ctx.int("sent_from_handler", 0, 1 << 16)
+
+        def on_low():
+            fired.append(1)
+            seen.append(ch.bufferedAmount)  # what an application's refill loop reads inside the event
+            if len(fired) == 1:
+                ch._addBufferedAmount(more)  # ... and it sends more from inside the handler
+
+        ch.on("bufferedamountlow", on_low)
         ch._addBufferedAmount(amount)
         ctx.reach("added")
-        ctx.check(ch.bufferedAmount == cur + amount, "bufferedAmount-adds-up")
+        if fired:
+            ctx.check(sx.eq(seen[0], cur + amount), "handler-sees-the-new-bufferedAmount")
+            ctx.check(ch.bufferedAmount == cur + amount + more, "bytes-sent-from-the-handler-are-accounted")
+        else:
+            ctx.check(ch.bufferedAmount == cur + amount, "bufferedAmount-adds-up")
         crossing = sx.And(cur > thr, cur + amount <= thr)
         ctx.check(sx.Iff(len(fired) == 1, crossing), "bufferedamountlow-iff-downward-crossing")
         ctx.check(len(fired) <= 1, "fires-at-most-once")
